@@ -197,6 +197,16 @@ Proof.
   rewrite (coo_dense_is m nr nc es Hl R B). reflexivity.
 Qed.
 
+Lemma to_dense_checked_ids nr nc es m : length m = nr -> rect nc m -> represents es nr nc m ->
+  match coo_checked_ids nr nc es with
+  | ROk (a, b, es') => ROk (a, b, coo_dense a b es')
+  | RErr c => RErr c
+  end = ROk (nr, nc, m).
+Proof.
+  intros Hl R Rep. unfold coo_checked_ids. destruct Rep as [A B]. rewrite A.
+  rewrite (coo_dense_is m nr nc es Hl R B). reflexivity.
+Qed.
+
 Lemma rectb_true c m : rect c m -> rectb c m = true.
 Proof. apply rectb_rect. Qed.
 
@@ -207,12 +217,12 @@ Theorem faithful_triples_gen es m c : rect c m -> represents es (length m) c m -
 Proof.
   intros R Rep. unfold to_dense, to_coo. destruct es as [|e es].
   - simpl. rewrite (represents_dense [] (length m) c m eq_refl R Rep). reflexivity.
-  - apply to_dense_checked; [reflexivity|exact R|exact Rep].
+  - apply to_dense_checked_ids; [reflexivity|exact R|exact Rep].
 Qed.
 
 Theorem faithful_dict_gen es m c : rect c m -> represents es (length m) c m ->
   to_dense (InDict es) (length m, c) = ROk (length m, c, m).
-Proof. intros R Rep. unfold to_dense, to_coo. apply to_dense_checked; [reflexivity|exact R|exact Rep]. Qed.
+Proof. intros R Rep. unfold to_dense, to_coo. apply to_dense_checked_ids; [reflexivity|exact R|exact Rep]. Qed.
 
 Theorem faithful_sparse_gen es m c shape : rect c m -> represents es (length m) c m ->
   to_dense (InSparse (length m) c es) shape = ROk (length m, c, m).
@@ -309,37 +319,51 @@ Qed.
 
 Definition strip (row : list entry3) : row_entries := map (fun e => (e_col e, e_val e)) row.
 
+Lemma dim_of_zero l : (forall x, In x l -> x = 0) -> dim_of l <= 1.
+Proof.
+  intros H. destruct l as [|y l]; [simpl; lia|].
+  change (dim_of (y :: l)) with (S (nmax (y :: l))).
+  assert (nmax (y :: l) <= 0); [|lia]. apply nmax_le. intros x Hx. rewrite (H x Hx). lia.
+Qed.
+Lemma dim_of_le b l : (forall x, In x l -> x < b) -> dim_of l <= b.
+Proof.
+  intros H. destruct l as [|y l]; [simpl; lia|].
+  change (dim_of (y :: l)) with (S (nmax (y :: l))).
+  assert (Hb : y < b) by (apply H; left; reflexivity).
+  assert (nmax (y :: l) <= b - 1); [|lia]. apply nmax_le. intros x Hx. specialize (H x Hx). lia.
+Qed.
+Lemma dim_of_pos l : l <> [] -> 1 <= dim_of l.
+Proof. destruct l; [contradiction|]. intros _. change (dim_of (n :: l)) with (S (nmax (n :: l))). lia. Qed.
+
 Theorem faithful_rowdicts_gen rows m c :
-  rect c m -> length rows = length m -> concat rows <> [] ->
+  rect c m -> length rows = length m ->
   (forall e, In e (concat rows) -> e_row e = 0 /\ e_col e < c) ->
   (forall i j, i < length m -> j < c -> row_sum (strip (nth i rows [])) j = get m i j) ->
   to_dense (InRowDicts rows) (length m, c) = ROk (length m, c, m).
 Proof.
-  intros R Hl Hne Hk Hs. unfold to_dense, to_coo.
-  destruct rows as [|r0 rows'] eqn:Er; [exfalso; apply Hne; reflexivity|]. rewrite <- Er in *.
-  destruct (concat rows) as [|k0 ks] eqn:Ek; [exfalso; apply Hne; reflexivity|]. rewrite <- Ek in *.
-  assert (Hrow0 : nmax (map e_row (concat rows)) = 0).
-  { apply Nat.le_0_r. apply nmax_le. intros x Hx. apply in_map_iff in Hx. destruct Hx as [e [<- He]].
-    destruct (Hk e He) as [A _]. lia. }
-  assert (Hc : c > 0).
-  { assert (In k0 (concat rows)) by (rewrite Ek; left; reflexivity). destruct (Hk k0 H). lia. }
-  assert (Hcol : S (nmax (map e_col (concat rows))) <= c).
-  { assert (nmax (map e_col (concat rows)) <= c - 1); [|lia]. apply nmax_le. intros x Hx.
-    apply in_map_iff in Hx. destruct Hx as [e [<- He]]. destruct (Hk e He). lia. }
-  rewrite Hrow0.
-  replace (Nat.ltb (S (nmax (map e_col (concat rows)))) 1) with false by (symmetry; apply Nat.ltb_ge; lia).
-  cbn [fst snd]. rewrite (Nat.max_r _ c Hcol). rewrite Hl.
-  apply to_dense_checked; [reflexivity|exact R|]. split.
-  - unfold flatten. apply in_range_flatten; [rewrite map_length; lia|].
-    apply Forall_forall. intros r Hr. apply in_map_iff in Hr. destruct Hr as [row [<- Hrow]].
-    apply Forall_forall. intros cv Hcv. apply in_map_iff in Hcv. destruct Hcv as [e [<- He]]. simpl.
-    apply (Hk e). apply in_concat. exists row. tauto.
-  - intros i j Hi Hj. unfold flatten. rewrite cell_sum_flatten, map_length, Hl.
-    replace (Nat.leb 0 i && Nat.ltb i (0 + length m)) with true
-      by (symmetry; apply andb_true_iff; split; [apply Nat.leb_le|apply Nat.ltb_lt]; lia).
-    rewrite Nat.sub_0_r.
-    rewrite (nth_indep _ [] (map (fun e => (e_col e, e_val e)) [])) by (rewrite map_length; lia).
-    rewrite (map_nth (map (fun e => (e_col e, e_val e)))). apply Hs; assumption.
+  intros R Hl Hk Hs. unfold to_dense, to_coo.
+  destruct rows as [|r0 rows'] eqn:Er.
+  - simpl in Hl. destruct m; [|discriminate]. reflexivity.
+  - rewrite <- Er in *.
+    assert (Hcol : dim_of (map e_col (concat rows)) <= c).
+    { apply dim_of_le. intros x Hx. apply in_map_iff in Hx. destruct Hx as [e [<- He]]. destruct (Hk e He). assumption. }
+    assert (Hlt : Nat.ltb (dim_of (map e_col (concat rows))) (dim_of (map e_row (concat rows))) = false).
+    { apply Nat.ltb_ge. destruct (concat rows) as [|k0 ks] eqn:Ek; [simpl; lia|]. rewrite <- Ek in *.
+      assert (dim_of (map e_row (concat rows)) <= 1).
+      { apply dim_of_zero. intros x Hx. apply in_map_iff in Hx. destruct Hx as [e [<- He]]. destruct (Hk e He). assumption. }
+      assert (1 <= dim_of (map e_col (concat rows))) by (apply dim_of_pos; rewrite Ek; discriminate). lia. }
+    rewrite Hlt. cbn [fst snd]. rewrite (Nat.max_r _ c Hcol). rewrite Hl.
+    apply to_dense_checked; [reflexivity|exact R|]. split.
+    + unfold flatten. apply in_range_flatten; [rewrite map_length; lia|].
+      apply Forall_forall. intros r Hr. apply in_map_iff in Hr. destruct Hr as [row [<- Hrow]].
+      apply Forall_forall. intros cv Hcv. apply in_map_iff in Hcv. destruct Hcv as [e [<- He]]. simpl.
+      apply (Hk e). apply in_concat. exists row. tauto.
+    + intros i j Hi Hj. unfold flatten. rewrite cell_sum_flatten, map_length, Hl.
+      replace (Nat.leb 0 i && Nat.ltb i (0 + length m)) with true
+        by (symmetry; apply andb_true_iff; split; [apply Nat.leb_le|apply Nat.ltb_lt]; lia).
+      rewrite Nat.sub_0_r.
+      rewrite (nth_indep _ [] (map (fun e => (e_col e, e_val e)) [])) by (rewrite map_length; lia).
+      rewrite (map_nth (map (fun e => (e_col e, e_val e)))). apply Hs; assumption.
 Qed.
 
 Lemma row_sum_nz r j : row_sum (nz_row r) j = row_sum r j.
@@ -370,31 +394,16 @@ Proof.
   - right. replace (s + S j) with (S s + j) by lia. apply IH. lia.
 Qed.
 
-Theorem faithful_rowdicts m c : rect c m -> has_nonzero m ->
+Theorem faithful_rowdicts m c : rect c m ->
   to_dense (enc_rowdicts m) (length m, c) = ROk (length m, c, m).
 Proof.
-  intros R (i & j & Hnz). unfold enc_rowdicts.
-  assert (Hi : i < length m).
-  { destruct (Nat.lt_ge_cases i (length m)) as [H|H]; [exact H|]. exfalso. apply Hnz. unfold get.
-    rewrite (nth_overflow m) by exact H. destruct j; reflexivity. }
-  assert (Hj : j < c).
-  { destruct (Nat.lt_ge_cases j c) as [H|H]; [exact H|]. exfalso. apply Hnz. unfold get.
-    apply nth_overflow. rewrite (rect_nth_length c m i R Hi). exact H. }
+  intros R. unfold enc_rowdicts.
   set (f := fun r : list Z => map (fun cv : nat * Z => (0, fst cv, snd cv)) (nz_row (enum_from 0 r))).
   apply faithful_rowdicts_gen.
   - exact R.
   - apply map_length.
-  - intros E.
-    assert (Hin : In (0, j, get m i j) (concat (map f m))).
-    { apply in_concat. exists (f (nth i m [])). split; [apply in_map; apply nth_In; exact Hi|].
-      unfold f. apply in_map_iff. exists (j, get m i j). split; [reflexivity|].
-      unfold nz_row. apply filter_In. split.
-      - pose proof (enum_from_nth 0 (nth i m []) j) as H. simpl in H. apply H.
-        rewrite (rect_nth_length c m i R Hi). exact Hj.
-      - simpl. apply negb_true_iff. apply Z.eqb_neq. exact Hnz. }
-    destruct (eq_ind _ (fun l => In (0, j, get m i j) l) Hin _ E).
   - intros e He. apply in_concat in He. destruct He as [l [Hl He]]. apply in_map_iff in Hl.
-    destruct Hl as [row [<- Hrow]]. unfold f in He. apply in_map_iff in He. destruct He as [cv [<- Hcv]].
+    destruct Hl as [row [<- Hrow]]. apply in_map_iff in He. destruct He as [cv [<- Hcv]].
     apply nz_row_in in Hcv. destruct Hcv as [Hcv _]. unfold e_row, e_col. simpl. split; [reflexivity|].
     pose proof (enum_from_bound 0 row) as B. rewrite Forall_forall in B. specialize (B cv Hcv).
     unfold rect in R. rewrite Forall_forall in R. rewrite (R row Hrow) in B. exact B.
@@ -496,7 +505,7 @@ Proof. intros H. rewrite (distinct_NoDup l H), Nat.eqb_refl. reflexivity. Qed.
 Lemma norm_md_keeps md n l : md = Some l -> length l <> n -> norm_md md n = Some l.
 Proof.
   intros -> H. unfold norm_md. replace (Nat.eqb (length l) n) with false by (symmetry; apply Nat.eqb_neq; exact H).
-  rewrite !andb_false_r. reflexivity.
+  rewrite andb_false_r. reflexivity.
 Qed.
 
 (* the condition of the property: duplicated ids, an id count that differs from the matrix
@@ -549,7 +558,7 @@ Lemma cast_md_valid md n : md_valid md n -> exists o, cast_md (norm_md md n) = R
 Proof.
   destruct md as [l|]; simpl; [|intros _; exists None; reflexivity].
   intros (Hl & Ho).
-  destruct (negb (Nat.eqb (length l) 0) && forallb falsy l && Nat.eqb (length l) n); [exists None; reflexivity|].
+  destruct (forallb is_blank l && Nat.eqb (length l) n); [exists None; reflexivity|].
   unfold cast_md. destruct (forallb is_blank l); [exists None; reflexivity|]. rewrite Ho. eexists. reflexivity.
 Qed.
 
@@ -565,7 +574,7 @@ Proof.
   assert (A : forall md n, md_valid md n ->
               match option_map (@length mdin) (norm_md md n) with Some k => negb (Nat.eqb n k) | None => false end = false).
   { intros md n V. destruct md as [l|]; [|reflexivity]. destruct V as (Hl & _). simpl.
-    destruct (negb (Nat.eqb (length l) 0) && forallb falsy l && Nat.eqb (length l) n); [reflexivity|].
+    destruct (forallb is_blank l && Nat.eqb (length l) n); [reflexivity|].
     simpl. rewrite Hl, Nat.eqb_refl. reflexivity. }
   rewrite (A omd _ Vo), (A smd _ Vs). reflexivity.
 Qed.
@@ -586,31 +595,25 @@ Proof.
 Qed.
 
 (* a metadata entry that is neither a mapping nor None: rejected, unless every entry is falsy *)
-Lemma cast_md_other l : existsb is_other l = true -> cast_md (Some l) = RErr E_TABLE.
+Lemma other_not_blank l : existsb is_other l = true -> forallb is_blank l = false.
 Proof.
-  intros H. unfold cast_md.
-  assert (forallb is_blank l = false).
-  { apply existsb_exists in H. destruct H as [e [He Ho]]. apply not_true_is_false. intros F.
-    rewrite forallb_forall in F. specialize (F e He). destruct e; discriminate. }
-  rewrite H0, H. reflexivity.
+  intros H. apply existsb_exists in H. destruct H as [e [He Ho]]. apply not_true_is_false. intros F.
+  rewrite forallb_forall in F. specialize (F e He). destruct e; discriminate.
 Qed.
 
-Lemma norm_md_truthy l n : existsb (fun e => negb (falsy e)) l = true -> norm_md (Some l) n = Some l.
-Proof.
-  intros H. unfold norm_md.
-  assert (forallb falsy l = false).
-  { apply existsb_exists in H. destruct H as [e [He Hf]]. apply not_true_is_false. intros F.
-    rewrite forallb_forall in F. rewrite (F e He) in Hf. discriminate. }
-  rewrite H0, andb_false_r. reflexivity.
-Qed.
+Lemma cast_md_other l : existsb is_other l = true -> cast_md (Some l) = RErr E_TABLE.
+Proof. intros H. unfold cast_md. rewrite (other_not_blank l H), H. reflexivity. Qed.
+
+Lemma norm_md_other l n : existsb is_other l = true -> norm_md (Some l) n = Some l.
+Proof. intros H. unfold norm_md. rewrite (other_not_blank l H). reflexivity. Qed.
 
 Theorem nonmapping_rejected_lemma p inp oids sids omd smd ty l :
-  (omd = Some l \/ smd = Some l) -> existsb is_other l = true -> existsb (fun e => negb (falsy e)) l = true ->
+  (omd = Some l \/ smd = Some l) -> existsb is_other l = true ->
   (exists c, construct p inp oids sids omd smd ty = RErr c) /\
   (forall nr nc m, to_dense inp (length oids, length sids) = ROk (nr, nc, m) ->
      construct default_profile inp oids sids omd smd ty = RErr E_TABLE).
 Proof.
-  intros Hmd Ho Ht.
+  intros Hmd Ho.
   assert (Core : forall q, (exists c, construct q inp oids sids omd smd ty = RErr c) /\
      (forall nr nc m, to_dense inp (length oids, length sids) = ROk (nr, nc, m) ->
         (forall k, errcheck q (view_of nr nc oids sids (norm_md omd (length oids)) (norm_md smd (length sids))) [] <> Raise k) ->
@@ -623,12 +626,12 @@ Proof.
                 | _, RErr c => RErr c
                 end = RErr E_TABLE).
     { destruct Hmd as [E|E]; subst.
-      - rewrite (norm_md_truthy l _ Ht), (cast_md_other l Ho).
+      - rewrite (norm_md_other l _ Ho), (cast_md_other l Ho).
         destruct (cast_md (norm_md smd (length sids))) as [s|c] eqn:Es; [reflexivity|].
         destruct (norm_md smd (length sids)) as [l'|]; [|discriminate]. unfold cast_md in Es.
         destruct (forallb is_blank l'); [discriminate|]. destruct (existsb is_other l'); [|discriminate].
         inversion Es. reflexivity.
-      - rewrite (norm_md_truthy l _ Ht), (cast_md_other l Ho). reflexivity. }
+      - rewrite (norm_md_other l _ Ho), (cast_md_other l Ho). reflexivity. }
     destruct (errcheck q _ []) as [[| | | |]|e] eqn:Ee.
     - rewrite X. split; [eexists; reflexivity|]. intros ? ? ? H _. reflexivity.
     - rewrite X. split; [eexists; reflexivity|]. intros ? ? ? H _. reflexivity.
@@ -639,6 +642,17 @@ Proof.
   split; [apply (Core p)|]. intros nr nc m D. apply (proj2 (Core default_profile) nr nc m D).
   intros k E. destruct (errcheck_default_cases (view_of nr nc oids sids (norm_md omd (length oids)) (norm_md smd (length sids))))
     as [[_ [k' Hk]]|[_ Hk]]; rewrite Hk in E; discriminate.
+Qed.
+
+(* the forms that take their shape from the ids: a coordinate beyond the ids is the library's
+   table error, under every profile (it is raised before the error check runs) *)
+Theorem coordinate_beyond_ids_lemma p es oids sids omd smd ty :
+  forallb (in_range (length oids) (length sids)) es = false ->
+  construct p (InTriples es) oids sids omd smd ty = RErr E_TABLE /\
+  construct p (InDict es) oids sids omd smd ty = RErr E_TABLE.
+Proof.
+  intros H. unfold construct, to_dense, to_coo, coo_checked_ids. cbn [fst snd]. rewrite H.
+  destruct es as [|e es]; [discriminate|]. split; reflexivity.
 Qed.
 
 (* ================================================================== D. adjacency list *)
@@ -1120,7 +1134,7 @@ Theorem uc_count_lemma rs t : parse_uc rs = ROk t ->
   length (ut_mat t) = length (ut_obs t) /\ rect (length (ut_samp t)) (ut_mat t).
 Proof.
   unfold parse_uc. pose proof (uc_fold_inv rs) as Inv. destruct (uc_fold rs) as [s|c]; [|discriminate].
-  destruct Inv as [Ic Io Is Ir Oo So]. unfold uc_matrix, to_dense, to_coo, coo_checked. cbn [fst snd]. rewrite Ir.
+  destruct Inv as [Ic Io Is Ir Oo So]. unfold uc_matrix, to_dense, to_coo, coo_checked_ids. cbn [fst snd]. rewrite Ir.
   intros H. inversion H; subst t; clear H. cbn [ut_obs ut_samp ut_mat].
   split; [|split; [|split; [|split; [apply coo_dense_length|apply coo_dense_rect]]]].
   - intros o sm i j Ho Hs.
@@ -1144,7 +1158,7 @@ Theorem uc_total_lemma rs :
   (forall r, In r rs -> is_hs r = true -> rsplit_us (u_query r) <> None) -> exists t, parse_uc rs = ROk t.
 Proof.
   intros H. unfold parse_uc. pose proof (uc_fold_inv rs) as Inv. destruct (uc_fold rs) as [s|c].
-  - destruct Inv as [_ _ _ Ir _ _]. unfold uc_matrix, to_dense, to_coo, coo_checked. cbn [fst snd]. rewrite Ir.
+  - destruct Inv as [_ _ _ Ir _ _]. unfold uc_matrix, to_dense, to_coo, coo_checked_ids. cbn [fst snd]. rewrite Ir.
     eexists. reflexivity.
   - destruct Inv as (_ & r & A & B & C). exfalso. exact (H r A B C).
 Qed.
@@ -1153,7 +1167,7 @@ Theorem uc_error_lemma rs c : parse_uc rs = RErr c ->
   c = E_VALUE /\ exists r, In r rs /\ is_hs r = true /\ rsplit_us (u_query r) = None.
 Proof.
   unfold parse_uc. pose proof (uc_fold_inv rs) as Inv. destruct (uc_fold rs) as [s|c'].
-  - destruct Inv as [_ _ _ Ir _ _]. unfold uc_matrix, to_dense, to_coo, coo_checked. cbn [fst snd]. rewrite Ir. discriminate.
+  - destruct Inv as [_ _ _ Ir _ _]. unfold uc_matrix, to_dense, to_coo, coo_checked_ids. cbn [fst snd]. rewrite Ir. discriminate.
   - intros H. inversion H; subst. exact Inv.
 Qed.
 
@@ -1251,10 +1265,10 @@ Proof.
   - apply faithful_sparse; exact R.
 Qed.
 
-Lemma all_encodings_faithful c m inp : rect c m -> has_nonzero m -> In inp (all_encodings c m) ->
+Lemma all_encodings_faithful c m inp : rect c m -> In inp (all_encodings c m) ->
   to_dense inp (length m, c) = ROk (length m, c, m).
 Proof.
-  intros R Hnz [<-|H]; [apply faithful_rowdicts; assumption|apply encodings_faithful; assumption].
+  intros R [<-|H]; [apply faithful_rowdicts; assumption|apply encodings_faithful; assumption].
 Qed.
 
 Lemma construct_by_dense p i1 i2 oids sids omd smd ty :
@@ -1264,12 +1278,9 @@ Proof. intros H. unfold construct. rewrite H. reflexivity. Qed.
 
 Theorem forms_agree_lemma c m i1 i2 p oids sids omd smd ty :
   rect c m -> length oids = length m -> length sids = c ->
-  (has_nonzero m /\ In i1 (all_encodings c m) /\ In i2 (all_encodings c m)
-   \/ In i1 (encodings_shape_free c m) /\ In i2 (encodings_shape_free c m)) ->
+  In i1 (all_encodings c m) -> In i2 (all_encodings c m) ->
   construct p i1 oids sids omd smd ty = construct p i2 oids sids omd smd ty.
 Proof.
-  intros R Ho Hs H. apply construct_by_dense. rewrite Ho, Hs.
-  destruct H as [(Hnz & A & B)|(A & B)].
-  - rewrite (all_encodings_faithful c m i1 R Hnz A), (all_encodings_faithful c m i2 R Hnz B). reflexivity.
-  - rewrite (encodings_faithful c m i1 R A), (encodings_faithful c m i2 R B). reflexivity.
+  intros R Ho Hs A B. apply construct_by_dense. rewrite Ho, Hs.
+  rewrite (all_encodings_faithful c m i1 R A), (all_encodings_faithful c m i2 R B). reflexivity.
 Qed.
